@@ -96,7 +96,10 @@ def run(ctx):
     # inputs that end in the middle of a multi-byte character, stray lead and continuation bytes (implementation alone: the model is about bytes, these are about the scan)
     bprogs = ["find all 'z'", "find all at least 1 letter", "find all maybe 'a'", "find all any", "find all not 'a'", "find all at least 0 (line start)", "find all word start at least 1 letter word end",
               "replace all 'b' with 'B'", "find all whole line", "find all (any = x) maybe x", "find all in 'a' to 'z'", "find all whitespace", "find all line end", "find last 1 any", "find all caseless 'CAF'"]
-    ctx.coverage["hostile_byte_runs"] = impl_only_runs(ctx, bprogs, HOSTILE_TAILS + [t[:k] for t in HOSTILE_TAILS[:6] for k in range(len(t))], "C09")
+    bprogs += ["find all caseless 'caf\xc3\xa9'", "find all caseless '\xc3\xa9'", "find all caseless '\xce\xb1\xce\xb2'", "find all caseless '\xd0\xb4a'", "replace all caseless 'na\xc3\xafve' with 'x'",
+               "find all caseless '\xff'", "find all caseless 'a\xc3'"]
+    ctx.coverage["hostile_byte_runs"] = impl_only_runs(ctx, bprogs, HOSTILE_TAILS + [t[:k] for t in HOSTILE_TAILS[:6] for k in range(len(t))] +
+                                                       ["CAF\xc3\x89 caf\xc3\xa9", "\xc3\x89", "\xce\x91\xce\x92 \xce\xb1\xce\xb2", "\xd0\x94A \xd0\xb4a", "NA\xc3\x8fVE", "\xdf \xff \x9f", "A\xe3 a\xc3"], "C09")
     cases = [{"src": c["src"], "texts": c["texts"]} for c in load_corpus()] + extra
     for i in range(300 if quick else 30000):
         g = genprog.ProgGen(rng)
